@@ -153,7 +153,13 @@ class Flow:
                         return cls_val(ent["key"])
             return TOP
         if isinstance(node, ast.Call):
+            hv = self.c.expr_value(node, st) if hasattr(self.c, "expr_value") else None
+            if hv is not None:
+                return hv
             return self.c.call_value(node, st)
+        if isinstance(node, ast.BinOp):
+            hv = self.c.expr_value(node, st) if hasattr(self.c, "expr_value") else None
+            return hv if hv is not None else TOP
         if isinstance(node, ast.UnaryOp) and isinstance(node.op, ast.Not):
             t, f = self.truth_vals(self.eval(node.operand, st))
             out = set()
@@ -167,6 +173,9 @@ class Flow:
         if isinstance(node, (ast.JoinedStr,)):
             return TOP
         if isinstance(node, (ast.List, ast.Tuple, ast.Dict, ast.Set)):
+            hv = self.c.expr_value(node, st) if hasattr(self.c, "expr_value") else None
+            if hv is not None:
+                return hv
             if isinstance(node, (ast.List, ast.Tuple)) and not node.elts:
                 return FALSY
             if isinstance(node, (ast.List, ast.Tuple)):
@@ -215,15 +224,17 @@ class Flow:
         return self._loc
 
     # ---------------------------------------------------------------- conditions
-    def split(self, test, st):
-        """Return (set of states where test is true, set where false)."""
+    def split(self, test, st, out=None):
+        """Return (set of states where test is true, set where false).  Calls inside the test are processed
+        lazily, operand by operand, so that short-circuit evaluation is respected; their exception edges go to
+        `out` (an Outcome) when given."""
         if isinstance(test, ast.BoolOp):
             if isinstance(test.op, ast.And):
                 trues, falses = {st}, set()
                 for v in test.values:
                     nt = set()
                     for s in trues:
-                        a, b = self.split(v, s)
+                        a, b = self.split(v, s, out)
                         nt |= a
                         falses |= b
                     trues = nt
@@ -232,14 +243,26 @@ class Flow:
             for v in test.values:
                 nf = set()
                 for s in falses:
-                    a, b = self.split(v, s)
+                    a, b = self.split(v, s, out)
                     trues |= a
                     nf |= b
                 falses = nf
             return trues, falses
         if isinstance(test, ast.UnaryOp) and isinstance(test.op, ast.Not):
-            a, b = self.split(test.operand, st)
+            a, b = self.split(test.operand, st, out)
             return b, a
+        # leaf: run the calls it contains first
+        if out is not None and any(isinstance(n, ast.Call) for n in ast.walk(test)):
+            sts = self.do_calls(test, {st}, out)
+            ts, fs = set(), set()
+            for s2 in sts:
+                a, b = self.split_leaf(test, s2)
+                ts |= a
+                fs |= b
+            return ts, fs
+        return self.split_leaf(test, st)
+
+    def split_leaf(self, test, st):
         if isinstance(test, ast.Name):
             val = self.eval(test, st)
             tv, fv = set(), set()
@@ -351,9 +374,11 @@ class Flow:
                 keys.append(a[1])
             elif a[0] == "clsset":
                 keys += list(a[1])
+            elif a[0] == "falsy" and len(val) == 1:
+                pass
             else:
                 return None
-        return keys or None
+        return keys
 
     def _eq_atoms(self, lv, rvs):
         """Decide identity/equality of each left atom against the right values; None if undecidable."""
@@ -534,10 +559,9 @@ class Flow:
             out.cont = set(states)
             return out
         if isinstance(s, ast.If):
-            cur = self.do_calls(s.test, states, out)
             ts, fs = set(), set()
-            for st in cur:
-                a, b = self.split(s.test, st)
+            for st in states:
+                a, b = self.split(s.test, st, out)
                 ts |= a
                 fs |= b
             r1 = self.block(s.body, ts, cur_exc)
@@ -554,10 +578,9 @@ class Flow:
                 if not new:
                     break
                 seen |= new
-                cur = self.do_calls(s.test, new, out)
                 ts, fs = set(), set()
-                for st in cur:
-                    a, b = self.split(s.test, st)
+                for st in new:
+                    a, b = self.split(s.test, st, out)
                     ts |= a
                     fs |= b
                 exits |= fs
